@@ -95,7 +95,11 @@ UDefUnit(k, use) ==
                 [] use = "prop"    -> Obj(<<[k |-> "x", s |-> RefU], [k |-> "x2", s |-> RefU], [k |-> "y", s |-> Str_]>>, <<"x">>)
                 [] use = "items"   -> Obj(<<[k |-> "x", s |-> [type |-> <<"array">>, items |-> RefU]], [k |-> "y", s |-> Str_]>>, <<>>)
   IN [prop |-> "C01", fam |-> "udef", schema |-> root,
-      defs |-> <<[k |-> "U", s |-> UDef(k)]>> \o (IF use = "chain" THEN <<[k |-> "V", s |-> RefU]>> ELSE <<>>),
+      \* definitions are generated in name order: A (a constrained string: a declared type with an unmarshaler that
+      \* registers encoding/json, fmt and regexp) comes before U, W (the same) after it
+      defs |-> <<[k |-> "A", s |-> [type |-> <<"string">>, pattern |-> "p_a"]], [k |-> "U", s |-> UDef(k)]>>
+               \o (IF use = "chain" THEN <<[k |-> "V", s |-> RefU]>> ELSE <<>>)
+               \o <<[k |-> "W", s |-> ("type" :> <<"string">>) @@ ("minLength" :> 1)]>>,
       docs |-> <<JObj(<<>>)>>,
       \* a named float type with multipleOf does not compile (finding F-C01-named-float-multipleof)
       nobuild |-> IF k = "multnum" THEN <<"NamedFloatMultipleOfNoCompile">> ELSE <<>>,
